@@ -358,6 +358,21 @@ def fam_for_empty(rng, n):
     for i, it in enumerate(its):                    # the full product: it is small
         for j, sh in enumerate(shapes):
             out.append(template_group("fe%d_%d" % (i, j), "for-empty", sh % it))
+    # several clauses: an empty (or not) INNER iterable under outer loops whose execution is observable - iterating a
+    # non-iterable constant, an unpacking mismatch, a loop target with an effect - in every clause position
+    outers = ['"abc"', "3", "None", "[(1, 2, 3)]", "[1, 2]", "(1, 2)", "[]", "{1: 2}", "range(2)", "True"]
+    inners = ["[]", "()", "{}", "range(0)", '""', "[1]"]
+    multi = ["emit([x for c in <<%s>> for x in <<%s>>])\n", "emit([x for c in <<%s>> if c for x in <<%s>>])\n",
+             "emit({x: c for c in <<%s>> for x in <<%s>>})\n", "emit([x for a, b in <<%s>> for x in <<%s>>])\n",
+             "d = {}\nemit([0 for d[\"k\"] in <<%s>> for _ in <<%s>>])\nemit(d)\n",
+             "emit([x for y in <<[1]>> for c in <<%s>> for x in <<%s>>])\n",
+             "emit([x for c in <<%s>> for x in <<%s>> for z in <<[1]>>])\n",
+             "emit([t(c) for c in <<%s>> for x in <<%s>>])\n"]
+    for i, o in enumerate(outers):
+        for j, e in enumerate(inners):
+            for k, sh in enumerate(multi):
+                src = sh % (o, e)
+                out.append(template_group("fm%d_%d_%d" % (i, j, k), "for-empty", src, lib=HELP_T if "t(c)" in src else ""))
     return out
 
 
